@@ -83,7 +83,7 @@ CHECKS = [
          text="Nesting (two and three levels), union/X|Y unpacking, TypeVar bound/constraints/plain, the Python-scalar ladder and the Scalar/ScalarLike/"
               "PRNGKeyArray aliases are each compared, over a probe set of arrays/scalars/non-arrays in two contexts, with the side of the law the "
               "documentation states; building errors must be exactly ValueError where the law says so.",
-         note="trusted: vf/models/dtypes.py (intersection, scalar kinds); precision classes with Python scalars: totality only"),
+         note="trusted: vf/models/dtypes.py (intersection, scalar kinds); a precision class contains the Python scalar type of its own dtype-name family; alias law also after an injected `import jax` failure (fresh interpreters)"),
     dict(property_id="C10", level="translation_validation", design_ref="DESIGN.md §5 C10",
          technique="translation validation per program over a corpus (stdlib + site-packages) and Hypothesis-generated modules: strip exactly the documented additions and compare ASTs with attributes; compare code objects of the loader pipeline with a plain compile; execute generated modules both ways",
          text="Each program is validated individually: the transformed tree minus one import and one decorator per def/class must equal the original node for "
@@ -98,7 +98,7 @@ CHECKS = [
          note="11-module forest in a temp dir, bytecode writing off; sys.modules purged between cases only; pytest and IPython driven in fresh subprocesses"),
     dict(property_id="C18", level="exploration", design_ref="DESIGN.md §5 C18",
          technique="Hypothesis-generated histories of interpreter runs over one cache directory with bytecode writing on (harness owns sources, mtimes and hook configuration per run); per run and module the observed instrumentation/checker/source version is compared with the model",
-         text="Runs choose hooked subsets, one or two hooks with different checkers, import orders incl. nested imports, and source edits; quick simulates runs "
+         text="Runs choose hooked subsets, one or two hooks with different checkers, import orders incl. nested imports, an import made by a second thread while the first module is being read, and source edits; quick simulates runs "
               "in one process (plus a few real-subprocess histories), thorough executes every run in a fresh interpreter. A stale .pyc shows up as the wrong "
               "checker, missing/extra instrumentation or an old source version.",
          note="5-module forest incl. a helper module imported by the (lazily imported) typechecker module; CPython 3.12 pyc validation; in-process simulation clears Typechecker.lookup and sys.modules to mimic a new interpreter"),
@@ -117,7 +117,7 @@ CHECKS = [
     dict(property_id="C06", level="exploration", design_ref="DESIGN.md §5 C06",
          technique="harness-owned deterministic thread schedules (sys.settrace line tracing of jaxtyping's own frames plus sys.monitoring instruction-level points inside jaxtyping/_storage.py, one runnable thread at a time) drawn by Hypothesis; differential: per-thread transcript interleaved == transcript of the same workload alone",
          text="2-3 threads run generated workloads (decorated calls, context blocks, passing/failing array checks, structured PyTree checks with '?' axes) that "
-              "share annotation objects and names; context switches are forced every 1-8 source lines of jaxtyping (plus drawn segments), i.e. inside every "
+              "share annotation objects, value objects and names, optionally after threads that ended inside an open context; context switches are forced every 1-8 source lines of jaxtyping (plus drawn segments), i.e. inside every "
               "window between snapshot/restore, flag set/clear and push/pop. Each thread must obtain exactly the verdicts, listed bindings and transcripts it obtains alone.",
          note="line-granular pre-emption of jaxtyping's Python code (instruction-granular inside _storage.py in half of the cases) under the GIL; not inside C extensions; the solo run is the oracle, plus one absolute invariant on the solo transcript"),
 ]
